@@ -5,7 +5,7 @@
 //!   pol <start_ns> <cfg_refid|-1> <n> { t_ns mode d_ns e_ns phc refid tag }*n
 //!     mode 1: tracking reply after d ns; 0: reply with a wrong sequence number; 2: garbage datagram;
 //!     3: no socket; 4: a reply without tracking data; 5: no reply at all (the query times out, 3 x 1 s of real time);
-//!     6: no socket when the poll asks, there again right after (chronyd restarted while the loop waits).  e: extra time until the grace period is evaluated.  phc -1: file absent, -2: a directory in its place (open succeeds, read fails).
+//!     6: no socket when the poll asks, there again right after (chronyd restarted while the loop waits).  e: extra time until the grace period is evaluated.  phc -1: file absent, -2: a directory in its place (open succeeds, read fails), -3: the file is there and empty.
 //! -> per iteration  D:<as_of_ns>:<phc>:<refid>:<tag> | NG | NR | PG | PF , then  ORDER:<ok|query-before-read@i>
 use crate::bound::mk_tracking;
 use crate::util::*;
@@ -71,7 +71,11 @@ fn apply_step(sh: &Shared, i: usize) {
     } else {
         let _ = std::fs::rename(HIDDEN, SOCK);
     }
-    if s.phc < 0 {
+    if s.phc == -3 {
+        // the attribute is there and reads back empty (the driver has nothing to report yet)
+        let _ = std::fs::remove_dir(&sh.phc_path);
+        std::fs::write(&sh.phc_path, "\n").expect("phc file");
+    } else if s.phc < 0 {
         let _ = std::fs::remove_file(&sh.phc_path);
         let _ = std::fs::remove_dir(&sh.phc_path);
         if s.phc == -2 {
@@ -256,7 +260,23 @@ fn run_with(toks: &[&str], timed: bool) -> String {
 
     let mut out: Vec<String> = Vec::new();
     for i in 0..n {
-        match wmbox.recv_timeout(Duration::from_secs(15)) {
+        // (in slices, so that a poll loop that has ended - a panic - is noticed at once: `DIED`)
+        let mut got = Err(std::sync::mpsc::RecvTimeoutError::Timeout);
+        for _slice in 0..75 {
+            got = wmbox.recv_timeout(Duration::from_millis(200));
+            if got.is_ok() || poller.is_finished() {
+                break;
+            }
+        }
+        if got.is_err() && poller.is_finished() {
+            if let Ok(m) = wmbox.try_recv() {
+                got = Ok(m);
+            } else {
+                out.push("DIED".into());
+                break;
+            }
+        }
+        match got {
             Ok(Message::ClockErrorBoundData((t, phc, as_of))) => {
                 // the tag travels in the report's current_correction word (tag << 8 = tag * 2^-17) and leap status
                 let f: f64 = t.current_correction.into();
